@@ -118,6 +118,9 @@ def check_c02(tier):
                     "verdicts": [(v["phase"], v["ok"]) for v in c["verifs"]]})
     _neg_full(rep, "C02", cases)
     rep.assumptions = ["request URL absolute https", "headers inserted with Header.Add/Set", "exchanges satisfy the acceptance policy unless the generator deviates on purpose (verdict then equals Accept)", "dates >= 0"]
+    # reading back must not depend on how the file is delivered (ReaderFaults.tla)
+    from rf_checks import reader_faults
+    reader_faults(rep, "C02", ["sxg"], tier)
     return rep.finish()
 
 
